@@ -184,6 +184,20 @@ func (w *World) registerEndpointIntrinsics() {
 		return &IfaceVal{typ: types.NewPointer(rt), val: rp}
 	}
 	I["github.com/coreos/go-oidc/v3/oidc.ClientContext"] = func(e *Exec, fn *ssa.Function, a []Value) Value { return a[0] }
+	// golang.org/x/oauth2: the token request is answered by the harness (decoded-result boundary)
+	I["@verifOAuth2TokenFunc"] = func(e *Exec, fn *ssa.Function, a []Value) Value {
+		iv := a[0].(*IfaceVal)
+		f, ok := iv.val.(*FuncVal)
+		if !ok {
+			e.unsupported("verifOAuth2TokenFunc expects a func() (*oauth2.Token, error)")
+		}
+		e.hidden["oauth2tokenfunc"] = f
+		return nil
+	}
+	I["(*golang.org/x/oauth2.Config).TokenSource"] = func(e *Exec, fn *ssa.Function, a []Value) Value {
+		t := e.errorsPkgType("crypto/sha256", "digest")
+		return &IfaceVal{typ: types.NewPointer(t), val: &OpaqueVal{name: "oauth2.TokenSource", data: a[0]}}
+	}
 }
 
 // ---- redislock (third-party) at its documented boundary ----
